@@ -62,6 +62,11 @@ def handle (j : Json) : R Json := do
         let (r, c) := runAll W cv cacheState qs rev
         cacheState := c
         pure r
+      | "fresh-full-twice" =>
+        let fullOnly := fwd.filter (fun qi => match qs[qi]? with | some q => q.mode == "full" | none => false)
+        let (_, c) := runAll W cv W.populateCache qs fullOnly
+        let (r, _) := runAll W cv c qs fullOnly
+        pure r
       | "populated-at" =>
         let (r, _) := runAll W cv (W.prefixAt k.toNat).populateCache qs fwd
         pure r
@@ -75,6 +80,7 @@ def handle (j : Json) : R Json := do
         pure r
       | n => throw s!"unknown config {n}"
     for ((m, i), b) in (model.zip impl).zip base do
+      if i.cls == "skip" then continue
       if !sameVerdict m i then
         agree := false
         notes := notes.push (Json.mkObj [("config", name), ("k", k), ("k2", k2), ("model", m.cls), ("impl", i.cls)])
